@@ -125,6 +125,9 @@ type c17RenderCase struct {
 	ContentQuoted string `json:"content_quoted"` // informational, same bytes
 	Pos           int    `json:"pos"`
 	Variant       int    `json:"variant"`
+	// Before, when >= 0: the SAME error object was first placed at that offset and rendered,
+	// then moved to Pos with SetIndex and rendered again
+	Before int `json:"rendered_before_at"`
 }
 
 // three ways of building the error: generic, and two coded templates with arguments
@@ -162,6 +165,12 @@ func c17Call(name string, o *c17Obs, f func()) {
 
 // c17Observe drives the public API for one (content, position).
 func c17Observe(content []byte, pos, variant int) c17Obs {
+	return c17ObserveAfter(content, -1, pos, variant)
+}
+
+// c17ObserveAfter: when before >= 0 the error object is first placed at that offset and
+// rendered completely, then moved to pos (SetIndex) - what it shows must follow.
+func c17ObserveAfter(content []byte, before, pos, variant int) c17Obs {
 	var o c17Obs
 	var file *fs.File
 	var e jerrors.DocumentError
@@ -170,6 +179,13 @@ func c17Observe(content []byte, pos, variant int) c17Obs {
 		// the file gets its own copy: the library must not be able to alias the harness's bytes
 		file = fs.NewFile(c17FileName, append([]byte{}, content...))
 		e = jerrors.NewDocumentError(file, format)
+		if before >= 0 {
+			e.SetIndex(bytes.Index(before))
+			_ = e.Line()
+			_ = e.SourceSubString()
+			_ = e.String()
+			_ = (&e).Error()
+		}
 		e.SetIndex(bytes.Index(pos))
 	})
 	if o.panicIn != "" {
@@ -374,12 +390,24 @@ func c17RenderCheck(c *mon.Ctx, content []byte, pos, variant int) {
 	if want == got {
 		return
 	}
-	c.Violate("render", c17RenderCase{base64.StdEncoding.EncodeToString(content), strconv.Quote(string(content)), pos, variant},
+	c.Violate("render", c17RenderCase{base64.StdEncoding.EncodeToString(content), strconv.Quote(string(content)), pos, variant, -1},
 		want, got, fmt.Sprintf("rendering of a DocumentError at position %d of %s", pos, strconv.Quote(string(content[:min(len(content), 60)]))))
 }
 
+// c17RebasedCheck: one error object rendered at `before`, moved to pos, rendered again.
+func c17RebasedCheck(c *mon.Ctx, content []byte, before, pos, variant int) {
+	o := c17ObserveAfter(content, before, pos, variant)
+	want, got := c17Judge(c, content, pos, variant, o)
+	c.Count("render: error objects moved with SetIndex after a first rendering", 1)
+	if want == got {
+		return
+	}
+	c.Violate("render", c17RenderCase{base64.StdEncoding.EncodeToString(content), strconv.Quote(string(content)), pos, variant, before},
+		want, got, fmt.Sprintf("rendering of a DocumentError moved from position %d to %d of %s", before, pos, strconv.Quote(string(content[:min(len(content), 60)]))))
+}
+
 func c17RenderReplay(raw json.RawMessage) string {
-	var cs c17RenderCase
+	cs := c17RenderCase{Before: -1}
 	if err := json.Unmarshal(raw, &cs); err != nil {
 		return "bad replay: " + err.Error()
 	}
@@ -387,7 +415,7 @@ func c17RenderReplay(raw json.RawMessage) string {
 	if err != nil {
 		return "bad replay: " + err.Error()
 	}
-	_, got := c17Judge(nil, content, cs.Pos, cs.Variant, c17Observe(content, cs.Pos, cs.Variant))
+	_, got := c17Judge(nil, content, cs.Pos, cs.Variant, c17ObserveAfter(content, cs.Before, cs.Pos, cs.Variant))
 	return got
 }
 
@@ -536,15 +564,23 @@ func c17RandFile(r *mon.Rng) []byte {
 	if r.Chance(1, 5) {
 		lines = r.Range(1, 3)
 	}
-	for i := 0; i < lines && sb.Len() < 2048; i++ {
+	limit := 2048
+	if r.Chance(1, 6) {
+		// the first line break lies beyond the first KiB
+		limit = 4096
+		sb.WriteString(strings.Repeat(" ", r.Intn(3)) + strings.Repeat("long first line ", r.Range(65, 110)))
+		sb.WriteString(term())
+		lines = r.Range(2, 8)
+	}
+	for i := 0; i < lines && sb.Len() < limit; i++ {
 		c17RandLine(r, &sb)
 		if i < lines-1 || r.Bool() {
 			sb.WriteString(term())
 		}
 	}
 	b := []byte(sb.String())
-	if len(b) > 2048 {
-		b = b[:2048]
+	if len(b) > limit {
+		b = b[:limit]
 	}
 	if len(b) == 0 {
 		b = []byte("a")
@@ -602,6 +638,10 @@ func c17RenderRandom(c *mon.Ctx, l c17RenderLayout, k int) {
 			}
 			c17RenderCheck(c, content, pos, r.Intn(3))
 			c.Distinct(string(content) + "\x00" + strconv.Itoa(pos))
+		}
+		// the same error object moved from one position to another
+		for n := 0; n+1 < len(ps) && n < 12; n += 2 {
+			c17RebasedCheck(c, content, ps[n], ps[n+1], r.Intn(3))
 		}
 		c.Count("render: random (content, position) cases", len(seen))
 		if k == 0 && f < 2 {
